@@ -340,7 +340,7 @@ def run(ctx, host=None):
     # rules of other properties that are necessary conditions of this one too: no key indexed twice (C09) and ranges that never move or shrink (C13) are part of index/pack consistency
     if host is None:
         from ..report import host_modules
-        host_modules(chk, ctx, ['C09', 'C13'])
+        host_modules(chk, ctx, ['C09', 'C13', 'C10'])
 
     return chk.finish(
         explanation=("Static analysis of what ends up in the index: a per-iteration typestate on the three pack-writing loops (offset = tell() before the object's first write, "
